@@ -455,4 +455,6 @@ H(h_dist_int_1, dist<int, 1>()) H(h_dist_int_2, dist<int, 2>()) H(h_dist_int_3, 
 //@harness h_corners_{T}_{N} for T in int,uint for N in 1,2,3 tier=quick loop=300
 //@harness h_resize_{T}_{N} for T in int,uint for N in 1,2,3 tier=quick loop=40
 //@harness h_cmp_{T}_{N} for T in int,uint for N in 1,2,3 tier=quick loop=40
-//@harness h_dist_int_{N} for N in 1,2,3 param i=0..2 if i<int(N) tier=quick loop=40
+//@harness h_dist_int_{N} for N in 1,2 param i=0..1 if i<int(N) tier=quick loop=40
+//@harness h_dist_int_3 param i=2 tier=quick loop=40
+//@harness h_dist_int_3 param i=0..1 tier=thorough loop=40
